@@ -206,6 +206,13 @@ func runC15(c *hx.Ctx) *hx.Outcome {
 			o.Probe("frame:other-type")
 		}
 	}
+	// a twin: a different frame of the same type with the same CRC
+	if t.SBool(1, 4) {
+		if tw := gnss.Twin(t, pool[t.S(len(pool))]); tw != nil {
+			pool = append(pool, tw)
+			o.Probe("frame:crc-twin")
+		}
+	}
 	bases := make([]baseline, len(pool))
 	for i, f := range pool {
 		b, pan := decodeAlone(f, level)
